@@ -563,7 +563,12 @@ func (c *EvalCtx) call(n *Node) Val {
 				return mkInt(int64(len(s)))
 			}
 			if len(v.Frags) == 1 && v.Frags[0].Kind == FAtom {
-				return mkVar("len!"+v.Frags[0].Atom, SInt)
+				a := v.Frags[0].Atom
+				lv := mkVar("len!"+a, SInt)
+				if c.defs != nil {
+					*c.defs = append(*c.defs, mkAnd(mkCmp(">=", lv, mkInt(0)), mkIff(mkEq(lv, mkInt(0)), atomEmptyVar(a))))
+				}
+				return lv
 			}
 		case MapV:
 			if v.Cell == 0 {
